@@ -3244,6 +3244,17 @@ class SSHConnection(SSHPacketHandler, asyncio.Protocol):
 
         return SSHForwarder(cast(SSHForwarder, peer))
 
+    def _add_local_listener(self, listen_key: ListenKey,
+                            listener: SSHListener) -> None:
+        """Keep track of a local listener which forwards over this
+           connection, unless the connection has gone away meanwhile"""
+
+        if self.is_closed():
+            listener.close()
+            raise ChannelListenError('SSH connection closed')
+
+        self._local_listeners[listen_key] = listener
+
     @async_context_manager
     async def forward_local_port(
             self, listen_host: str, listen_port: int,
@@ -3330,7 +3341,7 @@ class SSHConnection(SSHPacketHandler, asyncio.Protocol):
         if dest_port == 0:
             dest_port = listen_port
 
-        self._local_listeners[listen_host, listen_port] = listener
+        self._add_local_listener((listen_host, listen_port), listener)
 
         return listener
 
@@ -3377,7 +3388,7 @@ class SSHConnection(SSHPacketHandler, asyncio.Protocol):
             self.logger.debug1('Failed to create local UNIX listener: %s', exc)
             raise
 
-        self._local_listeners[listen_path] = listener
+        self._add_local_listener(listen_path, listener)
 
         return listener
 
@@ -5421,7 +5432,7 @@ class SSHClientConnection(SSHConnection):
         if listen_port == 0:
             listen_port = listener.get_port()
 
-        self._local_listeners[listen_host, listen_port] = listener
+        self._add_local_listener((listen_host, listen_port), listener)
 
         return listener
 
@@ -5472,7 +5483,7 @@ class SSHClientConnection(SSHConnection):
             self.logger.debug1('Failed to create local UNIX listener: %s', exc)
             raise
 
-        self._local_listeners[listen_path] = listener
+        self._add_local_listener(listen_path, listener)
 
         return listener
 
@@ -5691,7 +5702,7 @@ class SSHClientConnection(SSHConnection):
         if listen_port == 0:
             listen_port = listener.get_port()
 
-        self._local_listeners[listen_host, listen_port] = listener
+        self._add_local_listener((listen_host, listen_port), listener)
 
         return listener
 
